@@ -1,35 +1,44 @@
 import D2P.Spec.Inline
 /-!
-# The run-string machine (html off): which strings a paragraph's inline content produces, and
-where a comment marker cuts them
+# The run machine: which runs a paragraph's inline content produces (both html modes), and where
+a comment marker cuts them
 
 `inlineText` (Spec/Inline.lean) says which TEXT a paragraph gets.  This spec is finer: it says how
-that text is cut into the run strings of `*_runs`, which is what comment ranges index.  A state is
-`(done, cur)`: the strings that are complete, and the string in progress.  Three things can happen:
+that text is cut into runs — a run is a list of formatting tags and a text; the run strings of
+`*_runs` are the renderings `<tags>text</tags>` of the runs whose text is not empty — which is what
+comment ranges index.  A state is `(done, cur)`: the runs that are complete, and the run in
+progress.  Three things can happen:
 
-* `txt t`   text goes into the string in progress;
-* `newRun`  a run boundary: the string in progress is complete (kept if non-empty);
-* `ins t`   a stand-in (tab, picture, note reference, link, equation …): the string in progress is
-            complete, `t` is a string of its own.
+* `txt t`      text goes into the run in progress (escaped when html is exported);
+* `newRun st`  a run boundary: the run in progress is complete (kept if it has text), the next one
+               carries the tags `st` — for a `w:r`, exactly its recognised formatting
+               (`runFormatting`), nothing else;
+* `ins t`      a stand-in (tab, picture, note reference, link, equation …): the run in progress is
+               complete, `t` is an untagged run of its own, and the run in progress resumes with
+               the tags it had.
 
-A marker records `k + count`, `k` being the number of strings of the paragraphs finished before and
-`count` the number of strings complete or in progress.  Nothing else: no collector, no tree.
+A marker records `k + count`, `k` being the number of strings before this paragraph's first run
+(those of finished paragraphs, plus the paragraph's own opening tag when it has one) and `count` the
+number of runs complete or in progress that have text.  Nothing else: no collector, no tree.
 -/
 namespace D2P
 
-abbrev RState := List Str × Str
+abbrev RState := List Run × Run
 
-/-- a string counts only if it is not empty -/
-def ne (t : Str) : List Str := if t.isEmpty then [] else [t]
+/-- a run counts only if its text is not empty -/
+def keep (r : Run) : List Run := if r.text.isEmpty then [] else [r]
 
-def RState.txt (r : RState) (t : Str) : RState := (r.1, r.2 ++ t)
-def RState.newRun (r : RState) : RState := (r.1 ++ ne r.2, [])
-def RState.ins (r : RState) (t : Str) : RState := (r.1 ++ ne r.2 ++ ne t, [])
+def RState.txt (r : RState) (t : Str) : RState := (r.1, { r.2 with text := r.2.text ++ t })
+def RState.newRun (r : RState) (st : List Str) : RState := (r.1 ++ keep r.2, { style := st, text := [] })
+def RState.ins (r : RState) (t : Str) : RState :=
+  (r.1 ++ keep r.2 ++ keep { style := [], text := t }, { style := r.2.style, text := [] })
 def RState.insOpt (r : RState) (t : Option Str) : RState := match t with | some t => r.ins t | none => r
-/-- strings complete or in progress -/
-def RState.count (r : RState) : Nat := r.1.length + (ne r.2).length
-/-- all strings, the one in progress last -/
-def RState.strings (r : RState) : List Str := r.1 ++ ne r.2
+/-- runs with text, complete or in progress -/
+def RState.count (r : RState) : Nat := r.1.length + (keep r.2).length
+/-- all runs with text, the one in progress last -/
+def RState.runs (r : RState) : List Run := r.1 ++ keep r.2
+/-- the state before anything: no run, an untagged empty run in progress -/
+def RState.init : RState := ([], { style := [], text := [] })
 
 structure RS where
   r : RState
@@ -64,12 +73,18 @@ end
 `link` = the text of a hyperlink's children, computed by the nested collectors) -/
 def openRuns (cfg : PartCfg) (k : Nat) (x : Xml) (link : M Str) (st : RS) : M (RS × Bool) :=
   match tagMember x.ptag with
-  | some "RUN" => pure ({ st with r := st.r.newRun }, true)
+  | some "RUN" => (runFormatting cfg.html x) >>= fun f => pure ({ st with r := st.r.newRun f }, true)
   | some "COMMENT_RANGE_END" => (x.attrReq (lit "w") (lit "id")) >>= fun id => pure (st.stop k id, false)
   | some "COMMENT_RANGE_START" => (x.attrReq (lit "w") (lit "id")) >>= fun id => pure (st.start k id, false)
-  | some "TEXT" => pure ({ st with r := st.r.txt (x.text?.getD []) }, true)
-  | some "TEXT_MATH" => pure ({ st with r := st.r.txt (x.text?.getD []) }, true)
-  | some "MATH" => pure ({ st with r := st.r.ins (lit "<latex>" ++ x.itertext ++ lit "</latex>") }, false)
+  | some "TEXT" =>
+      let t := if cfg.html then escapeHtml (x.text?.getD []) else x.text?.getD []
+      pure ({ st with r := st.r.txt t }, true)
+  | some "TEXT_MATH" =>
+      let t := if cfg.html then escapeHtml (x.text?.getD []) else x.text?.getD []
+      pure ({ st with r := st.r.txt t }, true)
+  | some "MATH" =>
+      let t := lit "<latex>" ++ (if cfg.html then escapeHtml x.itertext else x.itertext) ++ lit "</latex>"
+      pure ({ st with r := st.r.ins t }, false)
   | some "BR" => pure ({ st with r := st.r.txt ['\n'] }, true)
   | some "SYM" => (symCode x) >>= fun c => pure ({ st with r := match c with | some c => st.r.txt c | none => st.r }, true)
   | some "HYPERLINK" =>
@@ -89,14 +104,15 @@ def openRuns (cfg : PartCfg) (k : Nat) (x : Xml) (link : M Str) (st : RS) : M (R
   | some "IMAGE" => (imageRun cfg x "embed") >>= fun t => pure ({ st with r := st.r.insOpt t }, true)
   | some "IMAGEDATA" => (imageRun cfg x "id") >>= fun t => pure ({ st with r := st.r.insOpt t }, true)
   | some "IMAGE_ALT" =>
-      let alt := (x.attrGet ⟨none, lit "descr"⟩).map fun d => lit "----Image alt text---->" ++ d ++ ['<']
+      let alt := (x.attrGet ⟨none, lit "descr"⟩).map fun d =>
+        lit "----Image alt text---->" ++ (if cfg.html then escapeHtml d else d) ++ ['<']
       pure ({ st with r := st.r.insOpt alt }, true)
   | some "TAB" => pure ({ st with r := st.r.ins ['\t'] }, true)
   | _ => pure (st, true)
 
 def closeRuns (x : Xml) (st : RS) : RS :=
   match tagMember x.ptag with
-  | some "RUN" => { st with r := st.r.newRun }
+  | some "RUN" => { st with r := st.r.newRun [] }
   | _ => st
 
 mutual
